@@ -17,6 +17,8 @@ pub fn units(tier: &str, _seed: u64) -> Vec<String> {
         "U:CAL:ELECTRICIDAD;U:ACS:ELECTRICIDAD;P:EL_INSITU;P:EL_COGEN;U:COGEN:GASNATURAL",
         "U:ACS:TERMOSOLAR;P:TERMOSOLAR;U:CAL:GASNATURAL",
         "U:ACS:EAMBIENTE;P:EAMBIENTE;U:NEPB:EAMBIENTE;U:ACS:ELECTRICIDAD",
+        // cogeneration fed by two fuels
+        "U:ILU:ELECTRICIDAD;P:EL_COGEN;U:COGEN:GASNATURAL;U:COGEN:BIOMASA",
     ];
     let mut v = vec![];
     for s in shapes {
